@@ -366,6 +366,30 @@ class Ctx:
             return False
         return True
 
+    # ------------------------------------------------------------------ TLAPS
+    def tlaps(self, module, needs, timeout=600):
+        """Check spec/<module>.tla (a TLAPS proof module; `needs` = modules it extends) with tlapm, without
+        fingerprints.  A failed or timed-out proof is inconclusive, never a verdict on the code."""
+        work = os.path.join(self.tmp, "tlaps-" + module)
+        os.makedirs(work, exist_ok=True)
+        for f in list(needs) + [module]:
+            shutil.copy(os.path.join(SPEC, f + ".tla"), work)
+        try:
+            p = subprocess.run(["tlapm", "--nofp", "--threads", "8", module + ".tla"], cwd=work,
+                               capture_output=True, text=True, timeout=timeout)
+        except (subprocess.TimeoutExpired, FileNotFoundError) as e:
+            self.inconclusive("tlapm %s: %s" % (module, e))
+            return 0
+        out = (p.stdout or "") + (p.stderr or "")
+        m = re.search(r"All (\d+) obligations? proved", out)
+        if not m:
+            self.inconclusive("tlapm %s: proof not accepted:\n%s" % (module, out[-1500:]))
+            return 0
+        n = int(m.group(1))
+        self.log("TLAPS %s: all %d obligations proved" % (module, n))
+        self.cover("proof-" + module, obligations=n, discharged=n)
+        return n
+
     # ------------------------------------------------------------------ go test
     def gotest(self, pkg, files, run, env=None, race=False, timeout=600, extra_files=None,
                tags="verif", count=1, args=None):
